@@ -4,12 +4,18 @@ C18 line-protocol driver, part 2: the consumer streams (see harness/internal/c18
   httphdr <q|s> <addF> <addV> <setF> <setV1> <setV2> <del1> <del2> <repF> <s|a|l> <search|P> <S> <replace> <X-In> <q> <secret>
   httprwm <prefix> <suffix> <subFind> <subReplace> <subLimit> <a|l|-> <P> <S> <reReplace> <path> <rawQuery> <secret>
   httphost <pattern1> <pattern2> <$SITE> <file content> <Host> <X-Tenant> <$SECRET>
+  httpchain <varTmpl> <mapSource> <a|l> <P> <S> <reOut> <mapDefault> <hdrTmpl> <bodyTmpl> <X-In> <q> <secret>
+  httptpl <bodyTmpl> <X-In> <q> <secret>
+  cfenv <bodySrc> <$VERIF_C18_CF | !> <X-In> <secret>
 `!` = JSON null / absent.  All byte fields must be ASCII.
 -/
 import CaddyModel.C18.MapH
 import CaddyModel.C18.Headers
 import CaddyModel.C18.RwMods
 import CaddyModel.C18.HostGlue
+import CaddyModel.C18.Chain
+import CaddyModel.C18.Tpl
+import CaddyModel.C18.CfEnv
 
 namespace CaddyModel.C18
 
@@ -151,6 +157,50 @@ def handleHost : List String → String
         | some (m1, m2) => "ok " ++ (if m1 then "1" else "0") ++ (if m2 then "1" else "0")
         | none => "err:provision"
     | _, _, _, _, _, _, _ => "bad-op"
+  | _ => "bad-op"
+
+/-! ### httpchain -/
+
+def handleChain : List String → String
+  | [varT, srcT, kind, p, s, reOut, defT, hdrT, bodyT, xin, q, secret] =>
+    match Hex.decode varT, Hex.decode srcT, Hex.decode p, Hex.decode s, Hex.decode reOut, Hex.decode defT with
+    | some varT, some srcT, some p, some s, some reOut, some defT =>
+      match Hex.decode hdrT, Hex.decode bodyT, Hex.decode xin, Hex.decode q, Hex.decode secret, mkPat kind p s with
+      | some hdrT, some bodyT, some xin, some q, some secret, some pat =>
+        if ![varT, srcT, p, s, reOut, defT, hdrT, bodyT, xin, q, secret].all isAscii then "bad-op"
+        else if [varT, srcT, defT].any (fun t => (indexOfSub phM t).isSome) then "bad-op"
+        else
+          let out := chainServe ⟨varT, srcT, pat, reOut, defT, hdrT, bodyT⟩ ⟨xin, q, [47], secret, []⟩
+          "ok " ++ Hex.encode out.1 ++ " " ++ Hex.encode out.2
+      | _, _, _, _, _, _ => "bad-op"
+    | _, _, _, _, _, _ => "bad-op"
+  | _ => "bad-op"
+
+/-! ### httptpl -/
+
+def handleTpl : List String → String
+  | [bodyT, xin, q, secret] =>
+    match Hex.decode bodyT, Hex.decode xin, Hex.decode q, Hex.decode secret with
+    | some bodyT, some xin, some q, some secret =>
+      if ![bodyT, xin, q, secret].all isAscii then "bad-op"
+      else match tplServe bodyT ⟨xin, q, [47], secret, []⟩ with
+        | some out => "ok " ++ Hex.encode out
+        | none => "unsupported"
+    | _, _, _, _ => "bad-op"
+  | _ => "bad-op"
+
+/-! ### cfenv -/
+
+def handleCfEnv : List String → String
+  | [bodySrc, val, xin, secret] =>
+    match Hex.decode bodySrc, decodeOpt val, Hex.decode xin, Hex.decode secret with
+    | some bodySrc, some val, some xin, some secret =>
+      if !(cfLexSafe bodySrc && (match val with | some v => cfLexSafe v | none => true) && cfLexSafe secret
+            && isAscii bodySrc && optAscii val && isAscii secret && isAscii xin && lastSpanCloses bodySrc) then "bad-op"
+      else match cfServe bodySrc val ⟨xin, [], [47], secret, []⟩ with
+        | some out => "ok " ++ Hex.encode out
+        | none => "panic"
+    | _, _, _, _ => "bad-op"
   | _ => "bad-op"
 
 end CaddyModel.C18
